@@ -36,7 +36,7 @@ type DetCase struct {
 // observe prepares the script once and runs it three times; the returned
 // string holds everything that must be reproducible.
 func observe(c *DetCase, noOpt bool) (string, error) {
-	r, err := prepared(c.Script, c.Vars, noOpt)
+	r, err := preparedShort(c.Script, c.Vars, noOpt)
 	if err != nil {
 		return "rejected", nil
 	}
